@@ -22,6 +22,9 @@ func init() {
 }
 
 func runC18(c *Ctx) {
+	c.Rule("C18.W9", "frozen lockset: the client connection's stream table, initial window, next stream id, go-away and closed state are only touched under cc.mu", 20)
+	defer runLockTables(c, "C18", nil)
+
 	c.Rule("C18.W1", "every DATA payload is sliced by the amount awaitFlowControl granted in that iteration", 4)
 	c.Rule("C18.W2", "awaitFlowControl: grant = min(window, remaining, max frame size) > 0, debited before return, waits under the lock", 10)
 	c.Rule("C18.W3", "flow.available = min(stream, connection); take debits both", 3)
